@@ -11,6 +11,7 @@ import (
 	"os"
 	"sort"
 	"strconv"
+	"strings"
 
 	"github.com/benoitkugler/webrender/css/parser"
 	pr "github.com/benoitkugler/webrender/css/properties"
@@ -43,6 +44,19 @@ type defScn struct {
 		N    int    `json:"n"`
 		Unit string `json:"unit"`
 	} `json:"scn"`
+	Dep struct {
+		K       string `json:"k"`
+		D       string `json:"d"`
+		C       string `json:"c"`
+		Wantd   string `json:"wantd"`
+		Wantf   string `json:"wantf"`
+		P       string `json:"p"`
+		St      string `json:"st"`
+		W       int    `json:"w"`
+		Want    int    `json:"want"`
+		M       string `json:"m"`
+		Want381 int    `json:"want381"`
+	} `json:"dep"`
 	Weight  int `json:"weight"`
 	Fs381   int `json:"fs381"`
 	Mid381  int `json:"mid381"`
@@ -218,6 +232,8 @@ func c04Main(args []string) int {
 			c04Units(&s, line, out)
 		case "weights":
 			c04Weights(&s, line, out)
+		case "dependent":
+			c04Dependent(&s, line, out)
 		}
 	})
 }
@@ -479,5 +495,97 @@ func c04Weights(s *defScn, line []byte, out *drv.Out) {
 	got := n.sf.Get(n.nodes[2], "").GetFontWeight()
 	if got.Int != s.Weight {
 		out.Disagree("font-weight:"+sc.Leaf, fmt.Sprintf("%s: font-weight computes to %v, CSS requires %d", doc, got, s.Weight), map[string]interface{}{"doc": doc, "got": got.Int, "want": s.Weight})
+	}
+}
+
+// c04Dependent: computed values that depend on other properties of the same element (Defaulting.tla, mode "dependent").
+func c04Dependent(s *defScn, line []byte, out *drv.Out) {
+	d := s.Dep
+	out.Count("dependent")
+	canon := func(v pr.Display) string {
+		var ps []string
+		for _, x := range v {
+			if x != "" {
+				ps = append(ps, x)
+			}
+		}
+		return strings.Join(ps, " ")
+	}
+	switch d.K {
+	case "display":
+		decl := "display:" + d.D
+		switch d.C {
+		case "float":
+			decl += ";float:left"
+		case "absolute":
+			decl += ";position:absolute"
+		case "fixed":
+			decl += ";position:fixed"
+		case "float-absolute":
+			decl += ";float:left;position:absolute"
+		}
+		doc := `<html><head></head><body><p style='` + decl + `'>x</p></body></html>`
+		node := 2
+		if d.C == "root" {
+			doc = `<html style='display:` + d.D + `'><head></head><body><p>x</p></body></html>`
+			node = 0
+		}
+		n, err := c04Styles(doc)
+		if err != nil {
+			out.Fatal(err.Error())
+			return
+		}
+		st := n.sf.Get(n.nodes[node], "")
+		gotd, gotf := canon(st.GetDisplay()), string(st.GetFloat())
+		if gotd != d.Wantd {
+			out.Disagree("dependent:display:"+d.D+":"+d.C, fmt.Sprintf("%s -> computed display %q, CSS 2.1 9.7 / CSS Display 3 2.7 require %q", decl, gotd, d.Wantd), map[string]interface{}{"doc": doc, "scenario": json.RawMessage(line)})
+		}
+		if d.C != "root" && gotf != d.Wantf {
+			out.Disagree("dependent:float:"+d.C, fmt.Sprintf("%s -> computed float %q, CSS 2.1 9.7 requires %q", decl, gotf, d.Wantf), map[string]interface{}{"doc": doc, "scenario": json.RawMessage(line)})
+		}
+	case "line":
+		decl := fmt.Sprintf("%s-style:%s;%s-width:%dpx", d.P, d.St, d.P, d.W)
+		doc := `<html><head></head><body><p style='` + decl + `'>x</p></body></html>`
+		n, err := c04Styles(doc)
+		if err != nil {
+			out.Fatal(err.Error())
+			return
+		}
+		st := n.sf.Get(n.nodes[2], "")
+		var got float64
+		switch d.P {
+		case "border-top":
+			got = float64(st.GetBorderTopWidth().Value)
+		case "border-left":
+			got = float64(st.GetBorderLeftWidth().Value)
+		case "outline":
+			got = float64(st.GetOutlineWidth().Value)
+		case "column-rule":
+			got = float64(st.GetColumnRuleWidth().Value)
+		}
+		if math.Abs(got-float64(d.Want)) > 1e-6 {
+			out.Disagree("dependent:line-width:"+d.P+":"+d.St, fmt.Sprintf("%s -> computed width %g, CSS requires %d", decl, got, d.Want), map[string]interface{}{"doc": doc, "scenario": json.RawMessage(line)})
+		}
+	case "bleed":
+		doc := `<html><head><style>@page{marks:` + d.M + `;bleed:auto}</style></head><body><p>x</p></body></html>`
+		h, sf, err := drv.Styles(doc, &drv.Opts{UACSS: "zz{}"})
+		if err != nil {
+			out.Fatal(err.Error())
+			return
+		}
+		pt := utils.PageElement{Side: "right", First: true, Index: 0}
+		sf.SetPageComputedStylesT(pt, h)
+		st := sf.Get(pt, "")
+		if st == nil {
+			out.Fatal("no page style")
+			return
+		}
+		for side, v := range map[string]pr.DimOrS{"top": st.GetBleedTop(), "right": st.GetBleedRight(), "bottom": st.GetBleedBottom(), "left": st.GetBleedLeft()} {
+			got := float64(v.Value) * 381
+			if v.S != "" || math.Abs(got-float64(d.Want381)) > 0.5 {
+				out.Disagree("dependent:bleed:"+d.M, fmt.Sprintf("@page{marks:%s;bleed:auto} -> computed bleed-%s %v%s, CSS Paged Media requires %gpx", d.M, side, v.Value, v.S, float64(d.Want381)/381), map[string]interface{}{"doc": doc, "scenario": json.RawMessage(line)})
+				break
+			}
+		}
 	}
 }
